@@ -55,8 +55,11 @@ def rtClass : Conversion → RtClass
     if hasOffsetSpec f then .none else if hasZoneNameSpec f then .zoneAbbrev else .literalPercent
   | _ => .none
 
-/-- finding class of the panic: an instant chrono hands out that `datetime_to_utc` cannot rebuild:
-    a leap-second nanosecond field on a second that is not :59 (zones whose UTC offset has seconds). -/
+/-- class of the FIXED finding `nopanic:D_leap_offset` (repaired by 83f4a4b): an instant chrono hands
+    out that `Utc.timestamp_opt` refuses — a leap-second nanosecond field on a second that is not
+    :59 (zones whose UTC offset has seconds). `datetime_to_utc` used to rebuild the instant through
+    `Utc.timestamp_opt(..).single().expect(..)` and panicked exactly there; it is now the identity
+    on the pair (`Cnv.datetimeToUtc`). Still used by the oracle `o.c35.nopanic` to name a regression. -/
 def D_leap_offset (i : Inst) : Bool := decide (1000000000 ≤ i.2) && !(i.1 % 60 == 59)
 
 end C35
